@@ -9,6 +9,9 @@ RULE = ("exhaustive (secret, nonce) over Z_q x Z_q of p=23 for every base in the
         "ristretto: Schnorr/CP/popk/decryption proofs with default, explicit-standard and derived bases, prover outputs and decisions compared with the Gallina ristretto255 model")
 
 
+from props.util import boundary_labels
+
+
 def run(env):
     r = env.rng
     items = []
@@ -45,6 +48,13 @@ def run(env):
                 add_cp(ctx, x, mem[n], mem[(x * 3 + 1) % len(mem)], "x:6c", n)
     env.exhaustive = True
     labels = ["x:", "x:00", hexb(r.randbytes(300))] + ([hexb(r.randbytes(4096))] if not env.quick else [])
+    # labels whose LENGTH sits on a digest-size / power-of-two boundary: all four proof kinds on a cheap set
+    for k, lab in enumerate(boundary_labels(env.quick)):
+        ctx = ["B:2039", "M:2039"][k % 2]; p, q, g = pq(ctx); x = r.randrange(q)
+        add_schnorr(ctx, x, None if k % 3 else rnd_member(r, ctx), lab)
+        add_cp(ctx, x, None, rnd_member(r, ctx), lab)
+        add_popk(ctx, x, rnd_member(r, ctx), lab)
+        add_dec(ctx, x, (rnd_member(r, ctx), rnd_member(r, ctx)), lab)
     for pstr, n in [("65267", 6 if env.quick else 40), (str(P62), 8 if env.quick else 60), ("2048", 1 if env.quick else 6)]:
         for fl in "BM":
             ctx = "%s:%s" % (fl, pstr)
